@@ -102,6 +102,23 @@ impl Ctx {
                 _ => (IpResources::blocks(c4), IpResources::missing(), AsResources::missing()),
             })
         } else { raw };
+        // ASPA under the trimming policy: the certificate claims AS64496-AS64510 in one span; the issuer holds AS64496 and
+        // AS64500-AS64510, so AS64497-AS64499 are claimed but not validated
+        let raw = if kind == "aspa" && pol == "trim" {
+            use rpki::repository::resources::{AsBlock, AsBlocks, AsResources, Asn, IpResources};
+            let span: AsBlocks = [AsBlock::from((Asn::from_u32(64496), Asn::from_u32(64510)))].into_iter().collect();
+            Some((IpResources::missing(), IpResources::missing(), AsResources::blocks(span)))
+        } else { raw };
+        // "resbad": a second, well-formed element follows the block that covers the object; its bounds are swapped below
+        let (asn, raw) = if ee == "resbad" && kind == "aspa" { (rc("blocks", &["a1", "a2"]), raw) }
+            else if ee == "resbad" && kind == "roa" {
+                use rpki::repository::resources::{Addr, IpBlock, IpBlocks, IpResources, AsResources};
+                let lo = Addr::from_bits(0x0A00_0201u128 << 96);
+                let hi = Addr::from_bits((0x0A00_037Fu128 << 96) | ((1u128 << 96) - 1));
+                let b4: IpBlocks = [v4_atom("a1"), IpBlock::from((lo, hi))].into_iter().collect();
+                let v6r = if fam == "v4+" { IpResources::blocks(ip_blocks("v6", &["a1".to_string()])) } else { IpResources::missing() };
+                (asn, Some((IpResources::blocks(b4), v6r, AsResources::missing())))
+            } else { (asn, raw) };
         let p = CertParams {
             kind: if ee == "isca" { "ca".into() } else { "ee".into() }, key: "e0".into(),
             // the "ipinherit" object is issued by the AS-only CA (key k1)
@@ -109,7 +126,18 @@ impl Ctx {
             aki: if ee == "akibad" { "k2".into() } else if cover == "ipinherit" { "k1".into() } else { "k0".into() },
             ski_ok: ee != "skibad", tamper: "none".into(), nb: 0, na: 2, policy: pol.into(), v4, v6, asn, serial: 4711, raw, validity: Some(validity),
         };
-        let d = build_cert(&self.pki, &p, &self.router);
+        let mut d = build_cert(&self.pki, &p, &self.router);
+        if ee == "resbad" {
+            // AS64500-AS64510 resp. 10.0.2.1-10.0.3.127 with the two bounds in each other's place (read back per RFC 3779 that is
+            // 10.0.3.0-10.0.2.1), signed again by the issuer
+            let (a, b): (&[u8], &[u8]) = if kind == "aspa" { (&[0x02, 0x03, 0x00, 0xFB, 0xF4], &[0x02, 0x03, 0x00, 0xFB, 0xFE]) }
+                                         else { (&[0x03, 0x05, 0x00, 0x0A, 0x00, 0x02, 0x01], &[0x03, 0x05, 0x07, 0x0A, 0x00, 0x03, 0x00]) };
+            let (ab, ba) = ([a, b].concat(), [b, a].concat());
+            d = resign_with(&d, &self.pki, "k0", |tbs| {
+                let pos = tbs.windows(ab.len()).position(|w| w == &ab[..]).expect("harness: the range to damage is in the certificate");
+                tbs[pos..pos + ab.len()].copy_from_slice(&ba);
+            });
+        }
         self.ee_cache.insert(key, d.clone());
         d
     }
@@ -193,7 +221,10 @@ pub fn assemble(ctx: &mut Ctx, c: &Value) -> (Vec<u8>, bool) {
         // (a caller may bring its own eContent: C14 wraps its manifest contents in real signed manifests)
         _ if c["content"].is_array() => c["content"].as_array().unwrap().iter().map(|x| x.as_u64().unwrap() as u8).collect(),
         "roa" => roa_content(g("cover"), c["fam"].as_str().unwrap_or("v4"), c["pol"].as_str().unwrap_or("refuse")),
-        "aspa" => aspa_content(if g("cover") == "outside" { 64497 } else { 64496 }),
+        "aspa" => {
+            let trim = c["pol"].as_str().unwrap_or("refuse") == "trim";
+            aspa_content(match (g("cover") == "outside", trim) { (true, false) => 64497, (false, false) => 64496, (true, true) => 64498, (false, true) => 64505 })
+        }
         "mft" => mft_content(),
         _ => b"generic RPKI signed object content".to_vec(),
     };
